@@ -27,7 +27,7 @@ ASSUMPTIONS = [
     "time.gmtime is the proleptic Gregorian calendar; int() as modelled for ASCII text (surrounding white space, sign, single underscores, 4300-digit limit)",
     "which files a glob reaches is an abstract predicate in the theorems (selection logic is C09); the harness feeds the model the set find_files_to_add() returned, in its real iteration order",
     "editable wheels are out of scope of C08 (their .pth holds the absolute project path by design)",
-    "PYTHONHASHSEED is fixed for the check process; set-iteration order is varied only through different absolute paths",
+    "PYTHONHASHSEED: varied for a subset of the projects by building in two fresh interpreters (bytes compared); inside the check process set-iteration order varies only through different absolute paths",
     "SOURCE_DATE_EPOCH beyond 2107-12-31 makes zipfile raise struct.error (no archive is produced); outside the property's value set",
 ]
 
@@ -292,6 +292,48 @@ def check_case(ctx: core.Ctx, p: gen_project.Project, kind: str, sde: str | None
         bc.rmtree(base)
 
 
+HASHSEED_SCRIPT = """
+import hashlib, os, sys, logging
+sys.path.insert(0, sys.argv[1])
+os.chdir(sys.argv[2])
+from poetry.core.masonry import api
+logging.getLogger("poetry.core").setLevel(logging.CRITICAL)
+import json
+cfg = json.loads(sys.argv[4]) or None
+for fn, sub in ((api.build_wheel, "w"), (api.build_sdist, "s")):
+    out = os.path.join(sys.argv[3], sub); os.makedirs(out, exist_ok=True)
+    n = fn(out, cfg)
+    print(n, hashlib.sha256(open(os.path.join(out, n), "rb").read()).hexdigest())
+"""
+
+
+def hashseed_case(ctx: core.Ctx, p: gen_project.Project, seeds: tuple[int, int], stream: str) -> None:
+    """str-hash randomisation (PYTHONHASHSEED) changes every set/dict-of-str iteration order: build in two fresh
+    interpreters and compare bytes (wheel + sdist; the editable .pth is out of scope, see the report)."""
+    import json
+    import subprocess
+    base = bc.scratch("pcv-c08h-")
+    wit = {"project": p.to_json(), "perturbation": "hashseed", "seeds": list(seeds)}
+    try:
+        root = bc.materialise(p, parent=str(base))
+        outs = []
+        for sd in seeds:
+            o = base / f"out{sd}"
+            o.mkdir()
+            env = dict(os.environ, PYTHONHASHSEED=str(sd))
+            env.pop("SOURCE_DATE_EPOCH", None)
+            r = subprocess.run([core.PY, "-c", HASHSEED_SCRIPT, str(core.REPO / "src"), str(root), str(o),
+                                json.dumps(p.config_settings)], capture_output=True, text=True, env=env, timeout=120)
+            outs.append(r.stdout.split() if r.returncode == 0 else ["failed", r.stderr[-200:]])
+        ctx.case("hashseed|" + p.signature(), nontrivial=outs[0][:1] != ["failed"], sample={"hashseed": list(seeds), "result": outs[0][:2]})
+        ctx.count("hashseed")
+        if outs[0] != outs[1]:
+            ctx.violate("hashseed:" + p.signature(), f"wheel/sdist of {p.name} {p.version} differ between PYTHONHASHSEED={seeds[0]} and {seeds[1]}: {outs[0]} vs {outs[1]}"[:500], wit)
+        ctx.stream(stream, 1, 0)
+    finally:
+        bc.rmtree(base)
+
+
 def time_stream(ctx: core.Ctx) -> None:
     """SOURCE_DATE_EPOCH parsing and calendar: model vs the real properties on a builder object (no build)"""
     from poetry.core.factory import Factory
@@ -364,6 +406,8 @@ def correspondence(ctx: core.Ctx) -> None:
         rnd.shuffle(sdes)
         for kind, sde in zip(PERTURBATIONS, sdes):
             check_case(ctx, p, kind, sde, rnd.getrandbits(32), "rebuild")
+        if i < ctx.budget(8, 60):
+            hashseed_case(ctx, p, (rnd.randint(1, 1000), rnd.randint(1001, 2000)), "hashseed")
 
 
 def search(ctx: core.Ctx) -> None:
@@ -381,5 +425,8 @@ def replay(ctx: core.Ctx, payload: dict[str, Any]) -> bool:
     w = payload.get("witness", payload)
     before = len(ctx.violations)
     p = gen_project.Project.from_json(w["project"])
+    if w.get("perturbation") == "hashseed":
+        hashseed_case(ctx, p, tuple(w.get("seeds", [1, 2])), "replay")
+        return len(ctx.violations) > before
     check_case(ctx, p, w["perturbation"], w.get("sde"), int(w.get("pseed", 0)), "replay")
     return len(ctx.violations) > before
